@@ -16,6 +16,13 @@ from ..rules.world import array_key
 from ..terms import T, affine, show, subterms
 from . import common
 
+# fields inverse() legitimately takes from the caller besides the integration state
+INVERSE_INPUTS = {
+  "Data.qacc": "the acceleration whose generating forces are asked for",
+  "Data.act_dot": "actuation is not part of inverse dynamics (as in mj_inverse); sensors read what forward() left",
+  "Data.actuator_force": "as act_dot",
+  "Data.qfrc_actuator": "as act_dot",
+}
 INPUT_FORCES = {"Data.qfrc_applied", "Data.qfrc_actuator", "Data.xfrc_applied", "Data.ctrl"}
 
 
@@ -162,11 +169,32 @@ def run(db, res, tier):
       return {f"{lc.field(a.root).path}" for a in lc.keval.accesses if not a.is_write and lc.field(a.root) is not None and lc.field(a.root).owner == "Model" and "damping" in lc.field(a.root).path}
     n += 1
     res.ob(model_reads(f_damp[0]) == model_reads(i_damp[0]), "eulerdamp|sibling-model-fields", Finding("R-SIB.1", "inverse._qfrc_eulerdamp|forward._compute_damping_deriv|different-model-fields", f"the two siblings read different damping parameters ({sorted(model_reads(f_damp[0]))} vs {sorted(model_reads(i_damp[0]))})", i_damp[0].ev.loc))
+  # (4d) inverse() evaluates everything it consumes itself: its live-in set (fields read before anything in the call
+  # defines them) contains only the integration state, its input qacc and the tabled actuation outputs (inverse dynamics
+  # does not run the actuation stage: MuJoCo's mj_inverse does not either; they are what the caller's forward() left)
+  from ..rules import r_live
+  from ..tables import live_tables
+  from .c12 import state_keys
+
+  live, _, _ = r_live.live_in(db, inv_tr)
+  allowed = state_keys() | set(live_tables.PERSISTENT) | set(live_tables.SLEEP_STATE) | set(INVERSE_INPUTS)
+  for k, info in sorted(live.items()):
+    if k.startswith("Model."):
+      continue
+    n += 1
+    res.ob(
+      k in allowed,
+      f"inverse|live-in|{k}",
+      Finding("R-LIVE.1", f"inverse.inverse|{k}|{info['event']}", f"inverse() reads {k} (first use: {info['event']}) before anything in the call defines it: the result depends on what an earlier call left there, not only on the state and the given qacc", info["loc"]),
+      sample={"live_in": k, "first_use": info["event"], "allowed": k in allowed},
+    )
+  nfl = r_live.check_flag_conditioned_liveness(res, db, "inverse.inverse", allowed, option_enums={"integrator": "IntegratorType"})
+  res.floor("flag/integrator-conditioned liveness obligations (inverse)", nfl, 10)
   # (5) INVDISCRETE: qacc is restored
   npair = r_pair.check_pairs(res, db, "inverse.inverse", {"Data.qacc"}, require_recompute=False)
   res.floor("qacc save/restore pair (INVDISCRETE)", npair, 1)
   res.floor("forward/inverse agreement obligations", n, 12)
-  res.rule_text = "R-SIGN.9: every force field that occurs in both forward's qfrc_smooth sum and inverse's qfrc_inverse sum has opposite unit coefficients, qfrc_constraint enters qfrc_inverse with -1, the single remaining +1 term is the buffer support.mul_m filled from Data.qacc before the sum, no input force (applied/actuator) is consumed, every non-input term of qfrc_smooth is present; R-SEQ.3: inverse() runs fwd_position, fwd_velocity, inv_constraint, rne in this order and its constraint forces come from constraint-update kernels the forward solver also uses; R-SIB.1: the Euler step's damping-derivative kernel and its discrete-time inverse sibling evaluate the same derivative function on the same model fields under the same model-determined guards; R-FLAGS.5: forward's implicit Euler damping and the inverse's discrete-time damping correction are switched off by the same flag assignments (both directions); R-PAIR: with INVDISCRETE the discrete-time qacc is restored on every path"
+  res.rule_text = "R-SIGN.9: every force field that occurs in both forward's qfrc_smooth sum and inverse's qfrc_inverse sum has opposite unit coefficients, qfrc_constraint enters qfrc_inverse with -1, the single remaining +1 term is the buffer support.mul_m filled from Data.qacc before the sum, no input force (applied/actuator) is consumed, every non-input term of qfrc_smooth is present; R-SEQ.3: inverse() runs fwd_position, fwd_velocity, inv_constraint, rne in this order and its constraint forces come from constraint-update kernels the forward solver also uses; R-SIB.1: the Euler step's damping-derivative kernel and its discrete-time inverse sibling evaluate the same derivative function on the same model fields under the same model-determined guards; R-FLAGS.5: forward's implicit Euler damping and the inverse's discrete-time damping correction are switched off by the same flag assignments (both directions); R-LIVE.6 (inverse): for every single flag and every integrator no read of a non-state field stays reachable while all its earlier definitions in inverse() become unreachable; R-LIVE.1 (inverse): the live-in set of inverse() contains only the integration state, the input qacc and the tabled actuation outputs; R-PAIR: with INVDISCRETE the discrete-time qacc is restored on every path"
   res.explanation = "Structural necessary conditions of forward/inverse consistency: the two sides of the equation of motion are assembled from the same fields with consistent signs on the outputs of the same stages. Not decided: equality up to solver residual (numeric), the discrete-time correction of discrete_acc."
   res.extra["analysed"] = {"qfrc_smooth_terms": f_terms, "qfrc_inverse_terms": i_terms, "inverse_stage_calls": [c for c in inv_calls if c.count(".") == 1][:14]}
   res.assumptions += ["xfrc_applied enters forward dynamics through qfrc_smooth's later accumulation and is part of what inverse returns"]
